@@ -221,17 +221,17 @@ class HistGen:
         kind = 1 if shape == "other-kind" else 1059
         self.op_store(self.new_event(kind=kind, tags=tags))
 
-    def g_ghost(self):
+    def g_ghost(self, shape=None, how=None, every_query=False):
         """store an event with an awkward tag list, take it out again in one of the ways the store offers, then ask for it
         through every access path: a removed event that an index still serves is a ghost"""
         r = self.r
         letter, val = r.choice([b"t", b"e", b"p", b"T"]), r.choice(TVALS[1:4])
-        shape = r.choice(["empty-first", "empty-mid", "nameless-value", "valueless-first", "repeat", "long-name-first", "plain"])
+        shape = shape or r.choice(self.GHOST_SHAPES)
         tags = {"empty-first": [[], [letter, val]], "empty-mid": [[b"t", b"zz"], [], [letter, val]],
                 "nameless-value": [[b"", b"x"], [letter, val]], "valueless-first": [[letter], [letter, val]],
                 "repeat": [[letter, val], [letter, val]], "long-name-first": [[b"client", b"x"], [letter, val]],
                 "plain": [[letter, val]]}[shape]
-        how = r.choice(["remove", "delete", "replace", "vanish", "remove"])
+        how = how or r.choice(["remove", "delete", "replace", "vanish", "remove"])
         kind = r.choice(RKINDS + PKINDS) if how == "replace" else r.choice([1, 1, 7, 1059])
         if kind in PKINDS:
             tags = [[b"d", b"gh"]] + tags
@@ -249,10 +249,13 @@ class HistGen:
         base = {"ids": [], "authors": [], "kinds": [], "tags": [], "since": None, "until": None, "limit": None}
         for sh in ({"tags": [[letter, val]]}, {"tags": [[letter, val]], "authors": [pk]}, {"tags": [[letter, val]], "kinds": [kind]},
                    {"authors": [pk], "kinds": [kind]}, {"authors": [pk]}, {"ids": [e["id"]]}, {"since": e["created"], "until": e["created"]}):
-            if r.random() < 0.7:
+            if every_query or r.random() < 0.7:
                 f = dict(base)
                 f.update(sh)
                 self.ops.append(("query", f, [], 1, 0, 0, self.now))
+
+    GHOST_SHAPES = ["empty-first", "empty-mid", "nameless-value", "valueless-first", "repeat", "long-name-first", "plain"]
+    GHOST_HOWS = ["remove", "delete", "replace", "vanish"]
 
     def g_reopen(self):
         self.ops.append(("reopen",))
@@ -419,7 +422,7 @@ class HistGen:
             return "remove " + C.tb(op[1])
         if k == "vanish":
             return "vanish " + C.tb(op[1])
-        if k in ("reopen", "rebuild"):
+        if k in ("reopen", "rebuild", "map"):
             return k
         if k == "xput":
             return "xput %s %s %s" % (C.tb(op[1]), C.tb(op[2]), C.tb(op[3]))
@@ -428,6 +431,9 @@ class HistGen:
             return "query %s %s %s %s %s %s" % (C.t_filter(f), C.tl("%s %s" % (C.tb(i), C.tn(o)) for i, o in screen),
                                                 C.tn(allow), C.tn(lim), C.tn(secs), C.tn(now))
         raise ValueError(k)
+
+    # engines that compare the bytes of the event map file with the byte-level model (LogBytes.v) set this
+    WITH_MAP = False
 
     def render(self, obs_every=1):
         """the dbhist line; ids/addrs in each obs are those mentioned up to that point (we use the
@@ -439,4 +445,6 @@ class HistGen:
             parts.append("; " + self.render_op(op))
             if (n + 1) % obs_every == 0 or n == len(self.ops) - 1:
                 parts.append("; " + obs)
+                if self.WITH_MAP:
+                    parts.append("; map")
         return " ".join(parts)
